@@ -32,6 +32,9 @@ func init() {
 	planTable["C14"] = mk("http,http,core", "at least one client input that is not a valid request (hostile HTTP path or WebSocket method string) was judged by C14.c; the seam invariant C14.a/b is evaluated on every subject of every run")
 	planTable["C16"] = mk("http", "at least one successful GET/HEAD body was compared with the reference renderer, or one POST answer with the service's result")
 	planTable["C17"] = mk("http", "at least one error response was checked against the status table, or a meta status / an origin decision was judged")
+	c18 := mk("nats", "at least one request was completed by the adapter and compared with the reference outcome")
+	c18.Quick, c18.Thorough = 30000, 600000
+	planTable["C18"] = c18
 	c11 := mk("core,access,throttle", "a client connection was closed while the gateway held state for it (requests crossed the seam on its behalf before the close)")
 	c11.Level, c11.Enum, c11.EnumBase = "fault_enumeration", "disconnect", [2]int{150, 5000}
 	c11.Quick, c11.Thorough = 6000, 150000
